@@ -110,13 +110,13 @@ def gen_colours(m, rng, job):
                         s = '%s%s256(%s %s%s)' % (pre, word, o_, fmtnum(v, hexa), c_)
                         run(m, {'op': 'scrub', 'leaves': [{'k': 'rgbs', 'v': s}]}, oplist)
     # malformed / mixed notations
-    bad = ['rgb()1,2,3)', 'ul_color256()5)', 'rgb(1,2,3))', 'rgb(1,2)', 'rgb()', 'rgb(1,2,3,4)', 'rgb(a,b,c)', 'rgb(ff,0,0)', 'rgb(0x,1,2)', 'rgb(1,2,3', 'rgb 1,2,3', 'RGB(1,2,3)',
+    bad = ['rgb(0b1,0,0)', 'color256(0B1)', 'rgb(0o7,1,2)', 'rgb()1,2,3)', 'ul_color256()5)', 'rgb(1,2,3))', 'rgb(1,2)', 'rgb()', 'rgb(1,2,3,4)', 'rgb(a,b,c)', 'rgb(ff,0,0)', 'rgb(0x,1,2)', 'rgb(1,2,3', 'rgb 1,2,3', 'RGB(1,2,3)',
            'rgb(0X10,1,2)', 'rgb(-1,2,3)', 'color256()', 'color256(1,2)', 'color256(x)', 'xx_rgb(1,2,3)', 'rgb(1;2;3)', 'rgb(1,2,3) ',
            ' rgb(1,2,3)', 'colr256(1)', 'rgb(1.5,2,3)', 'rgb(0x10, 2f, 3)']
     for s in bad:
         run(m, {'op': 'scrub', 'leaves': [{'k': 'rgbs', 'v': s}]}, oplist)
         run(m, {'op': 'scrub', 'leaves': [{'k': 'rgbs', 'v': s}], 'empty': True}, oplist)
-    mixed = ['rgb(0x10, 32, 48)', 'rgb(16, 0x20, 48)', 'rgb(1, 0xff, 3)', 'bg_rgb(0x1,0x2,3)', 'ul_rgb( 0xFF , 0x63 , 0x47 )',
+    mixed = ['rgb(010, 020, 030)', 'color256(007)', 'rgb(0255)', 'bg_rgb([0x0A, 020, 0])', 'rgb(0x10, 32, 48)', 'rgb(16, 0x20, 48)', 'rgb(1, 0xff, 3)', 'bg_rgb(0x1,0x2,3)', 'ul_rgb( 0xFF , 0x63 , 0x47 )',
              'rgb([100, 232, 170])', 'bg_rgb([100, 232, 170])', 'ul_rgb([255, 99, 71])', 'rgb(9055202)', 'dul_rgb(0xFF, 0x80, 0x00)']
     for s in mixed:
         run(m, {'op': 'scrub', 'leaves': [{'k': 'rgbs', 'v': s}]}, oplist)
